@@ -559,6 +559,8 @@ class InterestNameField(Field):
                     sig_cover_part.append(wire[cover_start:offset])
                 digest_buf = wire[offset + 2:offset + 34]
                 cover_start = offset + 34
+                # The final name carries the digest written to the wire, not the caller's placeholder
+                name[i] = wire[offset:offset + 34]
             offset += len(comp)
         if offset > cover_start:
             sig_cover_part.append(wire[cover_start:offset])
